@@ -432,7 +432,7 @@ indices on each dimension.`,
 				Doc:   `The upper exclusive bound on each dimension of an _array_.`,
 			},
 			"array-total-size-limit": {
-				Val:   Fixnum(math.MaxInt),
+				Val:   Fixnum(ArrayMaxDimension),
 				Const: true,
 				Doc:   `The upper bound on the size of an _array_.`,
 			},
